@@ -4,6 +4,7 @@ package ir
 
 import (
 	"github.com/llir/llvm/ir/constant"
+	"github.com/llir/llvm/ir/metadata"
 	"github.com/llir/llvm/ir/types"
 	"github.com/llir/llvm/ir/value"
 )
@@ -319,4 +320,147 @@ func VfC14_PrintTwice() {
 		_ = g.String()
 	}
 	vfAssert("C14.print-twice.first-print-of-a-copy", m2.String() == second)
+}
+
+// hC14Shifts reports whether edit k, applied after edit prev (-1: none),
+// changes the LLVM number of a value that an earlier print may have numbered.
+func hC14Shifts(prev, k int) bool {
+	switch k {
+	case 6, 9:
+		return true
+	case 7: // names i1 (unnamed unless edit 7 already named it)
+		return prev != 7
+	case 8: // un-names `named` (named unless edit 8 or the strip of edit 10 un-named it)
+		return vfAnd(prev != 8, prev != 10)
+	case 5: // names `named` if an earlier edit had un-named it
+		return vfOr(prev == 8, prev == 10)
+	case 0: // an unnamed instruction at the end of the first block: before the block that edit 1 appended
+		return prev == 1
+	case 16: // names the first global, which is unnamed if edit 9 or 11 put an unnamed one first
+		return vfOr(prev == 9, prev == 11)
+	case 18: // names the first "dup", which is unnamed after the strip of edit 10
+		return prev == 10
+	}
+	return false
+}
+
+// VfC14_History: histories of two edits with an observer (or none) before
+// each of them, against the same two edits alone.  The second edit uses other
+// names than the first, so applying an edit twice is legal.  Quick: three
+// observer placements (print first; print in between; queries at both
+// places); thorough: all sixteen.
+//
+//vf:unwind 300
+//vf:shards 16
+func VfC14_History() {
+	n1 := vfString("g", 1)
+	n2 := vfString("f", 1)
+	nm := vfString("nm", 1)
+	vfAssume(vfAnd(n1[0] >= 'a', n1[0] <= 'e'))
+	vfAssume(vfAnd(n2[0] >= 'f', n2[0] <= 'j'))
+	vfAssume(vfAnd(nm[0] >= 'l', nm[0] <= 'p'))
+	k1 := vfChoice("edit1", hC14Edits)
+	k2 := vfChoice("edit2", hC14Edits)
+	o1, o2 := 3, 3
+	if vfTier() > 0 {
+		o1 = vfChoice("observe1", 4)
+		o2 = vfChoice("observe2", 4)
+	} else {
+		switch vfChoice("placement", 3) {
+		case 0:
+			o1 = 0
+		case 1:
+			o2 = 0
+		default:
+			o1, o2 = 2, 2
+		}
+	}
+	a, b := hC14Build(n1, n2), hC14Build(n1, n2)
+	if o1 < 3 {
+		hC14Observe(a, o1)
+	}
+	hC14Edit(a, k1, nm)
+	hC14Edit(b, k1, nm)
+	if o2 < 3 {
+		hC14Observe(a, o2)
+	}
+	hC14Edit(a, k2, nm+"v")
+	hC14Edit(b, k2, nm+"v")
+	vfReach("C14.history")
+	// known finding (as in PrintAfterEdit): a print, later an edit that shifts numbers
+	stale := vfOr(vfAnd(o1 <= 1, vfOr(hC14Shifts(-1, k1), hC14Shifts(k1, k2))), vfAnd(o2 <= 1, hC14Shifts(k1, k2)))
+	vfKnown("C14.stale-ids-after-renumbering-edit", stale)
+	want := b.m.String()
+	got := a.m.String()
+	vfObserveStr("want", want)
+	vfAssert("C14.history.same-text", got == want)
+	vfAssert("C14.history.print-twice", a.m.String() == got)
+}
+
+// VfC14_Metadata: the IDs of metadata definitions are written by printing
+// too.  A module with three unnumbered definitions (a reference chain and an
+// attachment) is observed or not, then edited (a definition appended, inserted
+// first, inserted in the middle, the first one removed, two swapped), then
+// printed.
+//
+//vf:unwind 300
+func VfC14_Metadata() {
+	k := vfChoice("edit", 6)
+	how := vfChoice("observe", 3)
+	build := func() *Module {
+		m := NewModule()
+		x := &metadata.Tuple{MetadataID: -1, Fields: []metadata.Field{&metadata.String{Value: "x"}}}
+		y := &metadata.Tuple{MetadataID: -1, Fields: []metadata.Field{x}}
+		z := &metadata.Tuple{MetadataID: -1, Fields: []metadata.Field{y, x}}
+		m.MetadataDefs = append(m.MetadataDefs, x, y, z)
+		g := m.NewGlobalDef("g", constant.NewInt(types.I32, 1))
+		g.Metadata = append(g.Metadata, &metadata.Attachment{Name: "dbg", Node: z})
+		m.NamedMetadataDefs = map[string]*metadata.NamedDef{"nm": {Name: "nm", Nodes: []metadata.Node{y}}}
+		return m
+	}
+	edit := func(m *Module) {
+		c := &metadata.Tuple{MetadataID: -1, Fields: []metadata.Field{&metadata.String{Value: "c"}}}
+		switch k {
+		case 0: // append
+			m.MetadataDefs = append(m.MetadataDefs, c)
+		case 1: // insert first
+			m.MetadataDefs = append([]metadata.Definition{c}, m.MetadataDefs...)
+		case 2: // insert in the middle
+			m.MetadataDefs = []metadata.Definition{m.MetadataDefs[0], c, m.MetadataDefs[1], m.MetadataDefs[2]}
+		case 3: // remove the first (its users keep referring to it; it is printed inline no more: drop the references too)
+			y := m.MetadataDefs[1].(*metadata.Tuple)
+			z := m.MetadataDefs[2].(*metadata.Tuple)
+			y.Fields = []metadata.Field{&metadata.String{Value: "y"}}
+			z.Fields = []metadata.Field{y}
+			m.MetadataDefs = m.MetadataDefs[1:]
+		case 4: // swap two
+			m.MetadataDefs[0], m.MetadataDefs[1] = m.MetadataDefs[1], m.MetadataDefs[0]
+		default: // a new attachment to an existing node, nothing moves
+			m.Globals[0].Metadata = append(m.Globals[0].Metadata, &metadata.Attachment{Name: "prof", Node: m.MetadataDefs[0].(*metadata.Tuple)})
+		}
+	}
+	a, b := build(), build()
+	switch how {
+	case 0:
+		_ = a.String()
+	case 1:
+		_ = a.AssignMetadataIDs()
+	default: // queries that are not prints of the module
+		for _, d := range a.MetadataDefs {
+			_, _ = d.Ident(), d.LLString()
+		}
+		_ = a.Globals[0].LLString()
+	}
+	edit(a)
+	edit(b)
+	vfReach("C14.metadata")
+	// known finding: the IDs an earlier print (or AssignMetadataIDs) stored are
+	// kept, so an edit that moves a definition to another position among the
+	// unnumbered ones leaves the observed module numbered differently
+	vfKnown("C14.metadata-ids-kept-after-print", vfAnd(how <= 1, vfAnd(k >= 1, k <= 4)))
+	want := b.String()
+	got := a.String()
+	vfObserveStr("want", want)
+	vfAssert("C14.metadata.same-text", got == want)
+	vfAssert("C14.metadata.print-twice", a.String() == got)
 }
